@@ -94,6 +94,16 @@ def one(ctx, rng, xr, dask, ops, names):
     th, dd, dmeta = gen.dir_grid(rng, nd=int(rng.choice([4] if tiny else [4, 8, 12])), full=True, exact=True)
     lnames, lsizes = gen.lead_dims(rng, nlead=int(rng.choice([0, 1, 2, 2])), maxsize=2 if tiny else 4)
     A, classes = gen.stack_spectra(rng, f, th, lsizes, cls="multimodal")
+    if lsizes and rng.random() < 0.5:
+        # calm / land points and purely decaying tails (no interior peak) next to ordinary spectra: whether they share a
+        # block with them depends on the chunking
+        flat = A.reshape(-1, len(f), len(th))
+        for j in rng.choice(flat.shape[0], size=min(flat.shape[0], int(rng.integers(1, 3))), replace=False):
+            if rng.random() < 0.5:
+                flat[j] = 0.0
+            else:
+                flat[j] = (np.sort(rng.random(len(f)))[::-1] + 0.1)[:, None] * (np.cos(np.radians(th - float(rng.uniform(0, 360))) / 2) ** 2 + 0.05)[None, :]
+        A = flat.reshape(A.shape)
     dt = str(rng.choice(["float64", "float32"]))
     x = gen.make_da(A, f, th, lnames, lsizes, dtype=dt)
     aux = O.make_aux(rng, x, xr)
